@@ -550,7 +550,9 @@ def from_multi_index_to_3d_numpy(X, instance_index=None, time_index=None):
     #                    .index
     #                    .get_level_values(instance_index)
     #                    .unique()).shape[0]
-    n_timepoints = len(X.groupby(level=time_index))
+    # every instance has the same number of time points, but instances may carry
+    # their own time labels, so the labels cannot be counted across instances
+    n_timepoints = X.shape[0] // n_instances
     # Alternative approach is more verbose
     # n_instances = (multi_ind_dataframe
     #                    .index
